@@ -210,4 +210,98 @@ theorem cellEq_rename_field_false {c : Cell} {k k' : String}
     obtain ⟨p, hp, rfl⟩ := hk
     exact ⟨(k', p.2), List.mem_map.mpr ⟨p, hp, by simp⟩, rfl⟩
 
+/-! ### hashability of equal cells (audit follow-up) -/
+
+/-- a 0-d array: `np.array_equal(5, np.array(5))` is True, yet `hash` of the cell holding the 0-d
+array raises (`tuple(v)` iterates a 0-d array) — the one value form on which `==`-equal cells are
+not hashable together -/
+def Val.zeroD : Val → Bool
+  | .arr _ [] _ => true
+  | _ => false
+
+theorem Val.hkey_ok_of_eqv {x y : Val} {hx : HVal} (h : x.eqv y = true) (zx : x.zeroD = false)
+    (zy : y.zeroD = false) (h₁ : x.hkey = .ok hx) : ∃ hy, y.hkey = .ok hy := by
+  rw [Val.eqv_iff] at h
+  obtain ⟨hs, _⟩ := h
+  cases y with
+  | none => exact ⟨_, rfl⟩
+  | int i => exact ⟨_, rfl⟩
+  | flt q => exact ⟨_, rfl⟩
+  | arr b' s' d' =>
+    cases x with
+    | arr b s d =>
+      simp only [Val.shape] at hs
+      subst hs
+      match s, h₁ with
+      | [n], _ => exact ⟨_, rfl⟩
+      | [], h₁ => simp [Val.hkey] at h₁
+      | _ :: _ :: _, h₁ => simp [Val.hkey] at h₁
+    | none => simp only [Val.shape] at hs; subst hs; simp [Val.zeroD] at zy
+    | int i => simp only [Val.shape] at hs; subst hs; simp [Val.zeroD] at zy
+    | flt q => simp only [Val.shape] at hs; subst hs; simp [Val.zeroD] at zy
+
+theorem mapM_ok_of_forall' {α β : Type} {f : α → Except Err β} {l : List α}
+    (h : ∀ k ∈ l, ∃ y, f k = .ok y) : ∃ ys, l.mapM f = .ok ys := by
+  induction l with
+  | nil => exact ⟨[], by simp [List.mapM_nil, pure, Except.pure]⟩
+  | cons a rest ih =>
+    obtain ⟨y, hy⟩ := h a (by simp)
+    obtain ⟨ys, hys⟩ := ih (fun k hk => h k (by simp [hk]))
+    exact ⟨y :: ys, by rw [List.mapM_cons]; simp [hy, hys, bind, Except.bind, pure, Except.pure]⟩
+
+theorem mapM_ok_forall {α β : Type} {f : α → Except Err β} {l : List α} {ys : List β}
+    (h : l.mapM f = .ok ys) : ∀ k ∈ l, ∃ y, f k = .ok y := by
+  induction l generalizing ys with
+  | nil => intro k hk; cases hk
+  | cons a rest ih =>
+    rw [List.mapM_cons] at h
+    simp only [bind, Except.bind, pure, Except.pure] at h
+    split at h
+    · cases h
+    · rename_i x hx
+      split at h
+      · cases h
+      · rename_i xs hxs
+        intro k hk
+        rcases List.mem_cons.mp hk with rfl | hk
+        · exact ⟨x, hx⟩
+        · exact ih hxs k hk
+
+/-- no value of the dict is a 0-d array -/
+def Dict.noZeroD (d : Dict Val) : Prop := ∀ k x, d.get? k = some x → x.zeroD = false
+
+theorem valsHashKey_ok_of_valuesEq {a b : Dict Val} {ka : List (String × HVal)}
+    (h : valuesEq a b = true) (za : Dict.noZeroD a) (zb : Dict.noZeroD b)
+    (h₁ : valsHashKey a = .ok ka) : ∃ kb, valsHashKey b = .ok kb := by
+  have hk : sortStrings a.keys = sortStrings b.keys := by
+    have h' := h
+    simp only [valuesEq, keysEq, Bool.and_eq_true, beq_iff_eq] at h'
+    exact h'.1
+  rw [valuesEq_iff] at h
+  unfold valsHashKey at h₁ ⊢
+  rw [← hk]
+  refine mapM_ok_of_forall' ?_
+  intro k hkmem
+  have hka : k ∈ a.keys := (sortStrings_perm a.keys).mem_iff.mp hkmem
+  obtain ⟨u, v, hu, hv, huv⟩ := h.2 k hka
+  obtain ⟨y, hy⟩ := mapM_ok_forall h₁ k hkmem
+  simp only [hu] at hy
+  cases hux : u.hkey with
+  | error e => simp [hux, Except.map] at hy
+  | ok p =>
+    obtain ⟨q, hq⟩ := Val.hkey_ok_of_eqv huv (za k u hu) (zb k v hv) hux
+    exact ⟨(k, q), by simp [hv, hq, Except.map]⟩
+
+/-- **equal cells are hashable together** (0-d arrays aside) and then hash alike -/
+theorem Cell.hashKey_ok_of_cellEq {a b : Cell} {ka : HKey} (ha : a.KindOk) (hb : b.KindOk)
+    (h : cellEq a b = true) (za : Dict.noZeroD a.values) (zb : Dict.noZeroD b.values)
+    (h₁ : a.hashKey = .ok ka) : b.hashKey = .ok ka := by
+  obtain ⟨va, hva, _⟩ := Cell.hashKey_ok h₁
+  obtain ⟨vb, hvb⟩ := valsHashKey_ok_of_valuesEq (cellEq_iff'.mp h).2.2.2.2.2.2 za zb hva
+  have h₂ : ∃ kb, b.hashKey = .ok kb := by
+    simp only [Cell.hashKey, bind, Except.bind, pure, Except.pure, hvb]
+    exact ⟨_, rfl⟩
+  obtain ⟨kb, h₂⟩ := h₂
+  rw [h₂, Cell.hashKey_eq_of_cellEq ha hb h h₁ h₂]
+
 end Bermuda
